@@ -18,6 +18,10 @@ PB = (-1, 3, 2)
 
 
 def mk(kind, p, d):
+    return lib.construct(kind, lambda: _mk(kind, p, d))
+
+
+def _mk(kind, p, d):
     if kind == 'Line':
         return Line(lib.P(p), lib.V(d))
     if kind == 'Plane':
